@@ -141,6 +141,54 @@ def write_csv(path, headers, rnd):
         _csv.writer(f, lineterminator='\n').writerows(rows)
 
 
+def _ft_worker(seed, n):
+    import format_trace as FT
+    return FT.record_batch(seed, n)
+
+
+def trace_format(ck, n):
+    """code -> spec: random concrete format strings and statement headers through the real parser / detection / inspect, validated
+    by Trace_Format (Format!ParseFormat on the harness's own tokenisation; the suggestion must select the detected columns)."""
+    import copy
+    from props.totals_common import run_trace_sharded
+    outs = par.pmap(_ft_worker, [ck.seed * 2333 + 11 * s + 4 for s in range(16)], extra=(max(4, n // 16),))
+    by_id, skipped = {}, 0
+    for rs, sk in outs:
+        skipped += sk
+        for r in rs:
+            by_id[r['id']] = r
+    recs = [{k: v for k, v in r.items() if not k.startswith('_')} for r in by_id.values()]
+    base = next((r for r in recs if r['kind'] == 'format' and not r['obs']['err']), None)
+    if base is None:
+        raise core.Machinery('format trace recorder: no format string was accepted')
+    tam = copy.deepcopy(base)
+    tam['id'] = 'TAMPER'
+    tam['obs']['amount'] = tam['obs']['amount'] + 1
+    rej = run_trace_sharded(ck, 'Trace_Format', recs + [tam], 'Trace_Format', 'Trace_Format.cfg', shards=2)
+    if 'TAMPER' not in rej:
+        raise core.Machinery('Trace_Format accepted a tampered record: the binding is vacuous')
+    rej.pop('TAMPER')
+    ck.trace(len(recs))
+    ck.case(n=len(recs))
+    nsug = sum(1 for r in recs if r['kind'] == 'suggest')
+    nerr = sum(1 for r in recs if r['kind'] == 'format' and r['obs']['err'])
+    ck.case(('trace_format', nsug, nerr), nontrivial=nsug > 0 and nerr > 0, n=0)
+    ck.extra['trace_format'] = {'format_strings': len(recs) - nsug, 'rejected_by_the_parser': nerr, 'inspect_suggestions': nsug,
+                                'outside_statement_or_undetected_skipped': skipped, 'records_rejected': len(rej)}
+    for rid, clauses in sorted(rej.items()):
+        if any(c.startswith('MODEL') for c in clauses):
+            raise core.Machinery('Trace_Format model inconsistency on %s: %s' % (rid, sorted(clauses)))
+        r = by_id[rid]
+        if r['kind'] == 'format':
+            ck.violation({'site': 'parse_format_string', 'clause': sorted(clauses), 'via': 'trace_format'},
+                         {'format': r['_fmt'], 'template': r['_tmpl'], 'tokens': r['toks'], 'observed': r['obs'], 'parser_message': r['_msg']},
+                         'parse_format_string(%r, %r): %s; parser said %r' % (r['_fmt'], r['_tmpl'], sorted(clauses), r['_msg'] or r['obs']))
+        else:
+            ck.violation({'site': 'inspect', 'clause': sorted(clauses), 'via': 'trace_format'},
+                         {'headers': r['_headers'], 'suggestion': r['_suggestion'], 'detected': r['det'], 'date_style': r['_date_style']},
+                         'inspect on headers %s suggests %r: %s (detection reported %s)' % (r['_headers'], r['_suggestion'], sorted(clauses), r['det']))
+
+
 def replay_states(states, seed):
     from tally.parsers import auto_detect_csv_format
     from tally.format_parser import parse_format_string
@@ -272,6 +320,7 @@ def run(ck):
         if wrote:
             ck.violation({'site': 'tally inspect', 'clause': 'writes'}, {'headers': headers, 'effects': wrote}, 'tally inspect wrote files: %s' % wrote)
     ck.sample({'inspect_headers': rows[0][0]})
+    trace_format(ck, 12000 if ck.tier == 'quick' else 120000)
     ck.extra['rule'] = ('every sequence of <= %d column tokens over 12 token kinds x 5 templates, each written in two random spellings; every '
                         'header row of <= %d headers over 9 detection-class combinations through auto_detect_csv_format and tally inspect '
                         '(in-process, plus a sample through the real command line). non-trivial = accepted format / detected header row'
